@@ -226,7 +226,7 @@ theorem traverse_bytes (bs : Bytes) (v : BlockView) (hv : viewBlock bs = some v)
       exact ⟨top, by simpa using e, hv⟩
     · cases hv
   obtain ⟨top, rfl, hvi⟩ := hbs
-  obtain ⟨_, hb, hwt, hax, _⟩ := view_parts_are_slices top v hvi
+  obtain ⟨_, hb, hwt, hax, _, _⟩ := view_parts_are_slices top v hvi
   have hb' : (recordOfView v).bodies.length = v.bodies.length := by simp [recordOfView]
   have hw' : (recordOfView v).wits.length = v.wits.length := by simp [recordOfView]
   have spec := txs_spec (recordOfView v) (by omega) (by omega) i (by omega)
